@@ -536,18 +536,21 @@ inductive XOp where
   | op (o : Op)
   | create (name : String)
   | copynv
+  | setvg (lv : List Rat)       -- the attribute VGLVLS assigned in place (same number of layers)
 deriving Repr
 
 def xstep (s : St) : XOp → Option St
   | .op o => step s o
   | .create n => some (putVar s ⟨n, if s.grid then stdG else stdB⟩)
   | .copynv => some (copyNoVars s)
+  | .setvg lv => if lv.length = s.nL + 1 then some (setVglvls s lv) else none
 
 /-- `create@NAME`, `copynv`, or an operation -/
 def parseXOp (t : String) : Option XOp :=
   match t.splitOn "@" with
   | ["create", n] => some (.create n)
   | ["copynv"] => some .copynv
+  | ["setvg", lv] => (parseList parseRat lv).map XOp.setvg
   | _ => (parseOp t).map XOp.op
 
 def runOps : St → List XOp → List String
